@@ -472,6 +472,9 @@ for w_ in ("colors", "bits", "columns"):
 # numeric conversions of Primitive (C14), and the experiments of the last build hours (all tier "infeasible": documented
 # attempts, never selected by a registered check)
 # ---------------------------------------------------------------------------------------------------------------------
+ob("prim2_integer_ser", ["C04"], "primitive2.rs", unwind=14, cuts=X1_ALL, stubs=[FMT_STUB], timeout=900, mem_gb=16, tier="thorough",
+   functions=["primitive::Primitive::serialize", "core::fmt::num::<impl Display for i32>::fmt"],
+   bound="every i32: the token written for Integer(i) is an optional '-' and decimal digits with value i")
 ob("prim2_numeric_conversions", ["C14", "C01"], "primitive2.rs", unwind=4, cuts=X1_ALL, stubs=[FMT_STUB], timeout=900, mem_gb=12,
    functions=["primitive::Primitive::as_integer", "primitive::Primitive::as_u32", "primitive::Primitive::as_usize",
               "primitive::Primitive::as_u8", "primitive::Primitive::as_number"],
